@@ -207,16 +207,25 @@ func checkMain(args []string) int {
 	for _, it := range all {
 		have[it.ob.ID] = true
 	}
+	expectedVacuous := map[string]bool{}
 	if record {
 		var ids []string
-		for id := range have {
-			ids = append(ids, id)
+		for _, it := range all {
+			if it.ob.Kind == "cover" && it.ob.Status == "vacuous" {
+				ids = append(ids, it.ob.ID+"\tvacuous")
+			} else {
+				ids = append(ids, it.ob.ID)
+			}
 		}
 		sort.Strings(ids)
 		os.MkdirAll(filepath.Dir(regFile), 0o755)
 		os.WriteFile(regFile, []byte(strings.Join(ids, "\n")+"\n"), 0o644)
 	} else if b, err := os.ReadFile(regFile); err == nil {
 		for _, id := range strings.Split(strings.TrimSpace(string(b)), "\n") {
+			if strings.HasSuffix(id, "\tvacuous") {
+				expectedVacuous[strings.TrimSuffix(id, "\tvacuous")] = true
+				continue
+			}
 			if id != "" && !have[id] && !strings.Contains(id, "/cover@") {
 				all = append(all, item{ObReport{ID: id, Kind: "missing", Status: "undecided",
 					Desc: "registered obligation is no longer generated (the contract no longer binds to the code)"}, ""})
@@ -244,6 +253,13 @@ func checkMain(args []string) int {
 			nOb++
 			nDis++
 			bySolver[o.Solver]++
+			obsOut = append(obsOut, entry)
+			continue
+		}
+		if o.Kind == "cover" && o.Status == "vacuous" && (expectedVacuous[o.ID] || record) {
+			// a return site that is unreachable under the contract's precondition on the
+			// registered tree (for instance a path the precondition rules out)
+			entry["expected_unreachable"] = true
 			obsOut = append(obsOut, entry)
 			continue
 		}
